@@ -241,7 +241,8 @@ theorem rrsetToWire_single_raw (out : Bytes) (t : CTable) (origin : Option Name)
       if b.length > 65535 then .error .formError
       else .ok (out ++ nm ++ u16 r.rdtype ++ u16 r.rdclass ++ u32 r.ttl ++ u16 b.length ++ b, t1, 1) := by
   unfold rrsetToWire
-  simp only [hr, hd, List.length_cons, List.length_nil, rdsLoop, hw, rdataToWire]
+  have hwc : r.wireClass = r.rdclass := by simp [RRset.wireClass, hd]
+  simp only [hr, hwc, List.length_cons, List.length_nil, rdsLoop, hw, rdataToWire]
   rw [patchLen_eq]
   by_cases hb : b.length > 65535
   · simp [hb]
